@@ -1,4 +1,5 @@
 import Memterm.Props.C14
+import Memterm.Spec.C16
 
 /-
   C16 — resize() preserves overlapping content and leaves a well-formed screen.
@@ -7,12 +8,6 @@ namespace Memterm
 namespace C16
 
 open Gen
-
-/-- the documented grid after `resize(l, c)`: rows dropped from the top when shrinking,
-    columns from the right, new area blank -/
-def expectedCell (s : Screen) (l c : Nat) : Nat → Nat → Cell := fun y x =>
-  let d := s.lines - l
-  if x < s.columns ∧ x < c ∧ y + d < s.lines ∧ y < l then s.cell (y + d) x else defaultCell s
 
 theorem resize_same (s : Screen) : resize s (some s.lines) (some s.columns) = s ∧ resize s none none = s := by
   constructor <;> simp [resize]
@@ -157,19 +152,6 @@ theorem shrink_then_grow (s : Screen) (h : Inv s) (l c : Nat) (hl1 : 1 ≤ l) (h
 
 /-! #### what resize leaves alone -/
 
-structure Kept (s s' : Screen) : Prop where
-  mode : s'.mode = s.mode
-  tabstops : s'.tabstops = s.tabstops
-  title : s'.title = s.title
-  icon : s'.icon = s.icon
-  g0 : s'.g0 = s.g0
-  g1 : s'.g1 = s.g1
-  g1Active : s'.g1Active = s.g1Active
-  savepoints : s'.savepoints = s.savepoints
-  attr : s'.cursor.attr = s.cursor.attr
-  hidden : s'.cursor.hidden = s.cursor.hidden
-  savedColumns : s'.savedColumns = s.savedColumns
-
 theorem kept_dropRows (s1 : Screen) (h : Inv s1) (l : Nat) : Kept s1 (dropRowsFromTop s1 l) := by
   unfold dropRowsFromTop
   have hi := inv_deleteLines (inv_cursorPosition (inv_saveCursor h) (some 0) (some 0)) (some (s1.lines - l))
@@ -235,27 +217,6 @@ theorem kept_resize (s : Screen) (h : Inv s) (lines columns : Option Nat) : Kept
 
 /-! #### executable predicate -/
 
-def propC16 (cands : List Nat) (pre : Screen) (c : Call) (post : Screen) : Bool :=
-  match c with
-  | .resize lines columns =>
-    let l := lines.getD pre.lines
-    let cc := columns.getD pre.columns
-    if l == pre.lines && cc == pre.columns then
-      -- a complete no-op
-      decide (post.cursor = pre.cursor) && sameSettingsB cands pre post && sameCellsB pre post && sameDirtyB pre post
-    else
-      post.lines == l && post.columns == cc && post.margins == none &&
-      (List.range (max l pre.lines + 3)).all (fun d => post.dirty d == decide (d < l)) &&
-      allCellsB l cc (fun y x => decide (post.cell y x = expectedCell pre l cc y x)) &&
-      decide (post.cursor.y < l) && decide (post.cursor.x ≤ cc - 1) &&
-      decide (post.cursor.attr = pre.cursor.attr) && post.cursor.hidden == pre.cursor.hidden &&
-      cands.all (fun m => post.mode m == pre.mode m) &&
-      (List.range (max cc pre.columns + 3)).all (fun k => post.tabstops k == pre.tabstops k) &&
-      post.title == pre.title && post.icon == pre.icon && decide (post.g0 = pre.g0) && decide (post.g1 = pre.g1) &&
-      post.g1Active == pre.g1Active && decide (post.savepoints = pre.savepoints) &&
-      post.savedColumns == pre.savedColumns
-  | _ => true
-
 theorem resize_cursor (s : Screen) (h : Inv s) (lines columns : Option Nat)
     (hne : ¬ (lines.getD s.lines = s.lines ∧ columns.getD s.columns = s.columns))
     (hl : 1 ≤ lines.getD s.lines) :
@@ -320,3 +281,4 @@ example :
 
 end C16
 end Memterm
+
